@@ -18,6 +18,15 @@ Fixpoint st_of_sexp (x : sexp) : option st :=
                               | _, _ => None
                               end
                  end) in
+  let pairs := (fix go (l : list sexp) : option (list (st * st)) :=
+                  match l with
+                  | [] => Some []
+                  | SList [k; v] :: l' => match st_of_sexp k, st_of_sexp v, go l' with
+                                          | Some k', Some v', Some r => Some ((k', v') :: r)
+                                          | _, _, _ => None
+                                          end
+                  | _ => None
+                  end) in
   let bin (mk : tk -> st -> st -> st) (args : list sexp) : option st :=
     match args with
     | [Atom o; a; b] => match optk_of_atom o, st_of_sexp a, st_of_sexp b with
@@ -57,6 +66,29 @@ Fixpoint st_of_sexp (x : sexp) : option st :=
         | _ => None
         end
       else if t =? "paren" then match args with [a] => option_map SParen (st_of_sexp a) | _ => None end
+      else if t =? "lint" then match args with [z] => option_map (fun z' => SLit (LInt z')) (sexp_Z z) | _ => None end
+      else if t =? "luint" then match args with [z] => option_map (fun z' => SLit (LUint z')) (sexp_Z z) | _ => None end
+      else if t =? "ltrue" then match args with [] => Some (SLit (LBool true)) | _ => None end
+      else if t =? "lfalse" then match args with [] => Some (SLit (LBool false)) | _ => None end
+      else if t =? "lnull" then match args with [] => Some (SLit LNull) | _ => None end
+      else if t =? "sel" then
+        match args with [a; f] => match st_of_sexp a, opt_str f with
+                                  | Some a', Some f' => Some (SSel a' f') | _, _ => None end
+                      | _ => None end
+      else if t =? "idx" then
+        match args with [a; i] => match st_of_sexp a, st_of_sexp i with
+                                  | Some a', Some i' => Some (SIdx a' i') | _, _ => None end
+                      | _ => None end
+      else if t =? "mcall" then
+        match args with a :: f :: rs => match st_of_sexp a, opt_str f, many rs with
+                                        | Some a', Some f', Some rs' => Some (SMCall a' f' rs') | _, _, _ => None end
+                      | _ => None end
+      else if t =? "call" then
+        match args with f :: rs => match opt_str f, many rs with
+                                   | Some f', Some rs' => Some (SCall f' rs') | _, _ => None end
+                      | _ => None end
+      else if t =? "list" then option_map SLst (many args)
+      else if t =? "map" then option_map SMap (pairs args)
       else None
   | _ => None
   end.
